@@ -26,8 +26,9 @@ import (
 func c05Gen(t *rapid.T, r *h.Rec) execCase {
 	av, onEx, onCl := avoidOpts(r)
 	return execCase{
-		Spec: synth.GenSQL(t, &synth.SQLOpts{Avoid: av, OnExclude: onEx, OnClass: onCl, MaxTables: 4, Executable: true}),
-		Seed: int64(rapid.IntRange(1, 1<<30).Draw(t, "childSeed")),
+		Spec:   synth.GenSQL(t, &synth.SQLOpts{Avoid: av, OnExclude: onEx, OnClass: onCl, MaxTables: 4, Executable: true}),
+		Seed:   int64(rapid.IntRange(1, 1<<30).Draw(t, "childSeed")),
+		Checks: childChecks(12, 60),
 	}
 }
 
@@ -251,8 +252,8 @@ func c05Check(c execCase, r *h.Rec) error {
 		return h.Inconcf("harness: %v", err)
 	}
 	histories := 12
-	if h.LoadConfig().Tier == "thorough" {
-		histories = 60
+	if c.Checks > 0 {
+		histories = c.Checks
 	}
 	res, err := child.Run(c.Spec, scratch(), child.Options{
 		Extra:      map[string]string{"zz_crud_gen.go": crudFixed, "zz_unions_gen.go": unionsFixed},
